@@ -148,8 +148,7 @@ class MatmulFam(Family):
         return "fire"
 
     def finding(self, c):
-        if c["kind"] == "gemm" and c["tb"]:
-            return "C05-N5"
+        # C05-N5 (transB ignored) is fixed in /repo (ae98696): the rule refuses; witness in the corpus
         return None
 
 
@@ -408,10 +407,7 @@ class SliceSplitFam(Family):
         return "fire"
 
     def finding(self, c):
-        if c["lt18"]:
-            return "C05-N9"
-        if c["d"] % 2 == 1:
-            return "C05-N10"
+        # C05-N9 / C05-N10 (opset < 18, odd last dim) are fixed in /repo (462c374): the rule refuses; witnesses in the corpus
         return None
 
 
